@@ -711,7 +711,7 @@ def case_sel(ctx, c):
         which = str(g.choice((["ndset", "ndset", "obj"] if nobj > 1 else ["obj"]) + (["cons"] if sum(ncons) else [])))
         action = str(g.choice(["solve", "select", "problem+evalfn", "evalfn"]))
         gr = ctx.rng("sel-reference", c)
-        nref = n + int(gr.integers(1, 4))
+        nref = n + int(gr.integers(0, 4))              # same size or larger reference population
         Aref = draw_arrays(gr, nref, m, t, "gauss", polymorphic=fam in INDEPENDENT[2:])
         for key in ("chrgrp", "phypos", "genpos", "xoprob", "vname", "u", "beta", "trait", "nchr"):
             Aref[key] = A[key]                      # same marker panel and model, other individuals
@@ -742,8 +742,10 @@ def case_sel(ctx, c):
         with watching("called from a selection configuration", coords):
             cfg = run_select(sel, W, miscout, built)
     except Exception as e:
-        if reent is not None and reent.reentries > 0:
-            # equivalence: the same call with a plain callback (same numbers from a separate object) must fail as well
+        if reent is not None and reent.reentries > 0 and kind != "ga" and fam not in NOT_EQUIVARIANT:
+            # equivalence: the same call with a plain callback (same numbers from a separate object) must fail as well.  Only for
+            # deterministic set-ups: a short GA may or may not find a feasible point (it raises when it does not), and the random /
+            # simulated criteria differ between two runs
             try:
                 g2 = ctx.rng("sel-plain", c)
                 if kind == "sorting":
